@@ -294,6 +294,7 @@ class Explorer:
     def __init__(self, timeout_ms=20000, seed=0, max_paths=100000, logic=None):
         self.solver = z3.SolverFor(logic) if logic else z3.Solver()
         self.solver.set('timeout', timeout_ms)
+        self.timeout_ms = timeout_ms
         try:
             self.solver.set('random_seed', seed)
         except Exception:
@@ -367,6 +368,25 @@ class Explorer:
         self.paths = results
         self.pending = pending
         return results
+
+
+def uses_arrays(exprs):
+    seen = set()
+    todo = list(exprs)
+    n = 0
+    while todo:
+        e = todo.pop()
+        i = e.get_id()
+        if i in seen:
+            continue
+        seen.add(i)
+        n += 1
+        if n > 200000:
+            return True
+        if z3.is_quantifier(e) or e.sort().kind() == z3.Z3_ARRAY_SORT:
+            return True
+        todo.extend(e.children())
+    return False
 
 
 class Ctx:
@@ -491,7 +511,31 @@ class Ctx:
         if z3.is_true(prop):
             self.ex.queries.append((label, 'unsat', 0.0))
             return True
+        # solver ladder: z3 incremental (short cap) -> cvc5 with integer encoding of the bit-vectors -> z3 QF_BV tactic
+        self.ex.solver.set('timeout', min(self.ex.timeout_ms, int(os.environ.get('VERIF_Z3_FIRST_MS', '8000'))))
         r = self.ex.check(z3.Not(prop))
+        self.ex.solver.set('timeout', self.ex.timeout_ms)
+        m = None
+        if r == z3.unknown and not uses_arrays(self.pc + [prop]):
+            from .smtlib import cvc5_check
+            v, m2, _ = cvc5_check(self.pc + [z3.Not(prop)], timeout_s=self.ex.timeout_ms / 1000.0)
+            self.ex.second_solver_queries = getattr(self.ex, 'second_solver_queries', 0) + 1
+            if v == 'unsat':
+                r = z3.unsat
+            elif v == 'sat' and m2 is not None:
+                r = z3.sat
+                m = m2
+            else:
+                s2 = z3.SolverFor('QF_BV')
+                s2.set('timeout', max(self.ex.timeout_ms, 120000))
+                s2.add(*self.pc)
+                s2.add(z3.Not(prop))
+                r = s2.check()
+                if r == z3.sat:
+                    m = s2.model()
+        elif r == z3.unknown:
+            self.ex.solver.set('timeout', self.ex.timeout_ms)
+            r = self.ex.check(z3.Not(prop))
         dt = time.time() - t0
         if r == z3.unsat:
             self.ex.queries.append((label, 'unsat', dt))
@@ -499,7 +543,8 @@ class Ctx:
         if r == z3.unknown:
             self.ex.queries.append((label, 'unknown', dt))
             raise Inconclusive('solver unknown on ' + label)
-        m = self.ex.solver.model()
+        if m is None:
+            m = self.ex.solver.model()
         self.ex.queries.append((label, 'sat', dt))
         self.violations.append((label, m, replay))
         return False
